@@ -317,3 +317,438 @@ Proof.
       apply (in_ni_del_absent r n s); [exact En|cbn [tlook tabs_of sh]; rewrite Eg; reflexivity].
   - split; [apply mirrors_nil; reflexivity|exact A].
 Qed.
+
+(* ---- Flush: one DELETE per installed entry, each carrying the entry ---- *)
+Definition dels (n : ni) (l : list sentry) : list hevent := map (fun e => HDel n (sentry_key e) (Some e)) l.
+Definition entries_of (x : tabs) : list sentry :=
+  map (fun kv => STop T4 (fst kv) (snd kv)) (s4 x) ++ map (fun kv => STop T6 (fst kv) (snd kv)) (s6 x)
+  ++ map (fun kv => STop TL (fst kv) (snd kv)) (sl x)
+  ++ map (fun kv => SGrp (fst kv) (snd kv)) (sg x) ++ map (fun kv => SNh (fst kv) (snd kv)) (sh x).
+
+Lemma slook_fold_dels n l : forall sp n' k',
+  slook (fold_left fold_hook (dels n l) sp) n' k' =
+  if (n =? n') && existsb (fun e => skey_eqb (sentry_key e) k') l then None else slook sp n' k'.
+Proof.
+  induction l as [|e l IH]; intros sp n' k'; cbn [dels map fold_left existsb].
+  - rewrite andb_false_r. reflexivity.
+  - fold (dels n l). rewrite IH, slook_fold_hook.
+    destruct (n =? n'), (skey_eqb (sentry_key e) k'), (existsb _ l); reflexivity.
+Qed.
+Lemma evs_ok_dels n l : forall sp,
+  (forall e, In e l -> slook sp n (sentry_key e) = Some e) -> NoDup (map sentry_key l) -> evs_ok sp (dels n l).
+Proof.
+  induction l as [|e l IH]; intros sp H ND; cbn [dels map evs_ok]; [exact I|]. fold (dels n l).
+  inversion ND as [|? ? Hni ND']; subst. split.
+  - cbn [ev_ok]. apply H. left; reflexivity.
+  - apply IH; [|exact ND']. intros e' Hin. rewrite slook_fold_hook, N.eqb_refl. cbn [andb].
+    destruct (skey_eqb_spec (sentry_key e) (sentry_key e')) as [Heq|].
+    + exfalso. apply Hni. rewrite Heq. apply in_map. exact Hin.
+    + apply H. right. exact Hin.
+Qed.
+
+Lemma in_wf_nget {V} k (x : V) (m : amap V) : wf m -> In (k, x) m -> nget k m = Some x.
+Proof.
+  unfold wf, keys, nget, aget. induction m as [|[k' y] m IH]; cbn; [tauto|]. intros ND [Heq|Hin].
+  - inversion Heq; subst. rewrite N.eqb_refl. reflexivity.
+  - inversion ND as [|? ? Hni ND']; subst. destruct (N.eqb_spec k k') as [->|].
+    + exfalso. apply Hni. change k' with (fst (k', x)). apply in_map. exact Hin.
+    + apply IH; assumption.
+Qed.
+Definition wf_tabs (x : tabs) : Prop := wf (s4 x) /\ wf (s6 x) /\ wf (sl x) /\ wf (sg x) /\ wf (sh x).
+Lemma wf_tabs_of s : wf_ni s -> wf_tabs (tabs_of s).
+Proof. intros (H4 & H6 & HL & HG & HH & _). repeat split; assumption. Qed.
+
+Lemma entries_complete x k e : tlook x k = Some e -> In e (entries_of x).
+Proof.
+  unfold entries_of. rewrite !in_app_iff.
+  destruct k as [t k|id|i]; cbn [tlook].
+  - destruct (nget k (sp_top t x)) as [p|] eqn:E; cbn; [|discriminate]. intros H; inversion H; subst.
+    apply (aget_in N.eqb Neqb_spec) in E.
+    destruct t; cbn [sp_top] in E; [left|right; left|right; right; left];
+      apply in_map_iff; exists (k, p); split; auto.
+  - destruct (nget id (sg x)) as [p|] eqn:E; cbn; [|discriminate]. intros H; inversion H; subst.
+    apply (aget_in N.eqb Neqb_spec) in E. right; right; right; left. apply in_map_iff; exists (id, p); split; auto.
+  - destruct (nget i (sh x)) as [p|] eqn:E; cbn; [|discriminate]. intros H; inversion H; subst.
+    apply (aget_in N.eqb Neqb_spec) in E. right; right; right; right. apply in_map_iff; exists (i, p); split; auto.
+Qed.
+Lemma entries_sound x e : wf_tabs x -> In e (entries_of x) -> tlook x (sentry_key e) = Some e.
+Proof.
+  intros (H4 & H6 & HL & HG & HH). unfold entries_of. rewrite !in_app_iff, !in_map_iff.
+  intros [H|[H|[H|[H|H]]]]; destruct H as [[k p] [<- Hin]]; cbn [fst snd sentry_key tlook sp_top];
+    erewrite in_wf_nget; eauto; reflexivity.
+Qed.
+Lemma NoDup_app_disj {A} (a b : list A) : NoDup a -> NoDup b -> (forall x, In x a -> ~ In x b) -> NoDup (a ++ b).
+Proof.
+  induction a as [|x a IH]; cbn; intros Ha Hb Hd; [exact Hb|].
+  inversion Ha as [|? ? Hni Ha']; subst. constructor.
+  - rewrite in_app_iff. intros [H|H]; [exact (Hni H)|exact (Hd x (or_introl eq_refl) H)].
+  - apply IH; auto.
+Qed.
+Lemma NoDup_map_keys {V} (f : N -> skey) (m : amap V) :
+  (forall a b, f a = f b -> a = b) -> wf m -> NoDup (map (fun kv => f (fst kv)) m).
+Proof.
+  intros Hinj. unfold wf, keys. induction m as [|[k x] m IH]; cbn; intros ND; [constructor|].
+  inversion ND as [|? ? Hni ND']; subst. constructor; [|apply IH; exact ND'].
+  intros Hin. apply in_map_iff in Hin. destruct Hin as [[k' y] [Heq Hin]]. cbn in Heq. apply Hinj in Heq. subst.
+  apply Hni. change k with (fst (k, y)). apply in_map. exact Hin.
+Qed.
+Lemma entries_nodup x : wf_tabs x -> NoDup (map sentry_key (entries_of x)).
+Proof.
+  intros (H4 & H6 & HL & HG & HH). unfold entries_of. rewrite !map_app, !map_map. cbn [sentry_key fst snd].
+  repeat apply NoDup_app_disj;
+    try (apply NoDup_map_keys; [intros a b Hab; inversion Hab; reflexivity|assumption]);
+    intros y Ha Hb; apply in_map_iff in Ha; destruct Ha as [[k p] [<- _]];
+    rewrite ?in_app_iff, ?in_map_iff in Hb;
+    repeat (destruct Hb as [Hb|Hb]); destruct Hb as [[k2 p2] [Hb _]]; discriminate.
+Qed.
+
+Lemma mirrors_flush r n s0 r' :
+  nget n (nis r) = Some s0 -> wf_ni s0 ->
+  sp_eq (abs r') (in_ni n (fun _ => tabs0) (abs r)) -> mirrors r (dels n (entries_of (tabs_of s0))) r'.
+Proof.
+  intros En W H1. split.
+  - intros n' k'. rewrite (slook_sp_eq _ _ n' k' H1), slook_in_ni, slook_fold_dels, nget_abs, En. cbn [option_map].
+    destruct (N.eqb_spec n n') as [<-|]; cbn [andb]; [|reflexivity]. rewrite tlook_tabs0.
+    destruct (existsb _ _) eqn:Ex; [reflexivity|]. rewrite (slook_abs r n s0 _ En).
+    destruct (tlook (tabs_of s0) k') as [e|] eqn:Et; [|reflexivity]. exfalso.
+    assert (Hex : existsb (fun e0 => skey_eqb (sentry_key e0) k') (entries_of (tabs_of s0)) = true).
+    { apply existsb_exists. exists e. split; [eapply entries_complete; eauto|].
+      rewrite (tlook_key _ _ _ Et). apply skey_eqb_refl. }
+    congruence.
+  - apply evs_ok_dels; [|apply entries_nodup, wf_tabs_of, W].
+    intros e Hin. rewrite (slook_abs r n s0 _ En). apply entries_sound; [apply wf_tabs_of, W|exact Hin].
+Qed.
+
+Lemma tabs_sget_in_ni r r' n f s :
+  sp_eq (abs r') (in_ni n f (abs r)) -> nget n (nis r) = Some s ->
+  nget n (nis r') = Some (sget r' n) /\ tabs_of (sget r' n) = f (tabs_of s).
+Proof.
+  intros H En. specialize (H n). rewrite nget_in_ni, N.eqb_refl, !nget_abs, En in H. cbn [option_map] in H.
+  unfold sget. destruct (nget n (nis r')) as [s'|]; cbn in H; [|discriminate]. inversion H. auto.
+Qed.
+
+Lemma fold_rcg_AH n (l : amap top) : forall r, all_hooked r ->
+  all_hooked (fold_left (fun r' kv => let '(tn, tg) := target n (snd kv) in
+                                      upd_ni tn (fun s' => set_rcg (dec tg (rcg s')) s') r') l r).
+Proof.
+  induction l as [|kv l IH]; intros r A; cbn [fold_left]; [exact A|].
+  apply IH. destruct (target n (snd kv)) as [tn tg]. ah_upd; exact A.
+Qed.
+Lemma flush_top_AH t n r : all_hooked r -> all_hooked (fst (flush_top t n r)).
+Proof.
+  intros A. unfold flush_top. destruct (nget n (nis r)) as [s|]; cbn [fst]; [|exact A].
+  apply AH_upd_ni; [apply fold_rcg_AH; exact A|intros ?; apply hooked_set_top].
+Qed.
+Lemma flush_top_evs t n r s :
+  all_hooked r -> nget n (nis r) = Some s ->
+  snd (flush_top t n r) = dels n (map (fun kv => STop t (fst kv) (snd kv)) (get_top t s)).
+Proof.
+  intros A En. unfold flush_top. rewrite En. cbn [snd]. rewrite (AH_hooked r n s A En).
+  unfold dels. rewrite map_map. reflexivity.
+Qed.
+
+Lemma flush_ni_mirrors v n r :
+  WF r -> all_hooked r ->
+  mirrors r (snd (fst (flush_ni v n r))) (fst (fst (flush_ni v n r))) /\ all_hooked (fst (fst (flush_ni v n r))).
+Proof.
+  intros W A. pose proof (flush_ni_abs v n r) as HA. unfold flush_ni in *.
+  destruct (nget n (nis r)) as [s0|] eqn:En; cbn [fst snd] in *; [|split; [apply mirrors_nil; reflexivity|exact A]].
+  pose proof (flush_top_abs T4 n r) as A1. pose proof (flush_top_evs T4 n r s0 A En) as E1.
+  pose proof (flush_top_AH T4 n r A) as H1.
+  destruct (flush_top T4 n r) as [r1 h4]. cbn [fst snd] in *.
+  destruct (tabs_sget_in_ni _ _ _ _ _ A1 En) as [En1 T1].
+  pose proof (flush_top_abs T6 n r1) as A2. pose proof (flush_top_evs T6 n r1 _ H1 En1) as E2.
+  pose proof (flush_top_AH T6 n r1 H1) as H2.
+  destruct (flush_top T6 n r1) as [r2 h6]. cbn [fst snd] in *.
+  destruct (tabs_sget_in_ni _ _ _ _ _ A2 En1) as [En2 T2].
+  pose proof (flush_top_abs TL n r2) as A3. pose proof (flush_top_evs TL n r2 _ H2 En2) as E3.
+  pose proof (flush_top_AH TL n r2 H2) as H3.
+  destruct (flush_top TL n r2) as [r3 hl]. cbn [fst snd] in *.
+  split; [|ah_upd; exact H3].
+  rewrite (AH_hooked r n s0 A En).
+  assert (Ev : h4 ++ h6 ++ hl
+               ++ map (fun kv => HDel n (KGrp (fst kv)) (Some (SGrp (fst kv) (snd kv)))) (tabg s0)
+               ++ map (fun kv => HDel n (KNh (fst kv)) (Some (SNh (fst kv) (snd kv)))) (tabh s0)
+               = dels n (entries_of (tabs_of s0))).
+  { subst h4 h6 hl. rewrite <- !sp_top_tabs_of, T2, T1. cbn [sp_top sp_set_top tabs_of s4 s6 sl].
+    unfold entries_of, dels. rewrite !map_app, !map_map. reflexivity. }
+  rewrite Ev. apply mirrors_flush; [exact En|apply (WF_sget r n) in W; rewrite (sget_some _ _ _ En) in W; exact W|exact HA].
+Qed.
+
+Lemma flush_mirrors v l : forall r h0 e0, WF r -> all_hooked r ->
+  let res := fold_left (fun acc n => let '(r', h, e) := acc in
+                                     let '(r'', h', e') := flush_ni v n r' in (r'', h ++ h', e || e'))
+                       l (r, h0, e0) in
+  exists new, snd (fst res) = h0 ++ new /\ mirrors r new (fst (fst res)) /\ all_hooked (fst (fst res)).
+Proof.
+  induction l as [|n l IH]; intros r h0 e0 W A; cbn [fold_left].
+  - exists []. rewrite app_nil_r. cbn [fst snd]. split; [reflexivity|]. split; [apply mirrors_nil; reflexivity|exact A].
+  - pose proof (flush_ni_mirrors v n r W A) as [M1 A1]. pose proof (flush_ni_WF v n r W) as W1.
+    destruct (flush_ni v n r) as [[r2 h2] e2]. cbn [fst snd] in *.
+    destruct (IH r2 (h0 ++ h2) (e0 || e2) W1 A1) as (new & E & M & A2). cbv zeta in *.
+    exists (h2 ++ new). rewrite E, app_assoc. split; [reflexivity|]. split; [|exact A2].
+    eapply mirrors_app; eauto.
+Qed.
+
+(* ---- configuration ---- *)
+Lemma AH_set_hook r : all_hooked (set_post_change_hook r).
+Proof.
+  split; [reflexivity|]. intros n s. cbn [nis set_post_change_hook]. rewrite (nget_map (set_hooked true)).
+  destruct (nget n (nis r)); cbn; [|discriminate]. intros H; inversion H. reflexivity.
+Qed.
+Lemma AH_add_ni v n r : fixF15 v = true -> all_hooked r -> all_hooked (add_network_instance v n r).
+Proof.
+  intros F [A1 A2]. unfold add_network_instance. destruct (has_ni r n); [split; assumption|].
+  split; [exact A1|]. intros m s. cbn [nis set_nis]. rewrite nget_app. destruct (nget m (nis r)) as [s'|] eqn:Em.
+  - intros H; inversion H; subst. eapply A2; eauto.
+  - unfold nget, aget; cbn. destruct (m =? n); cbn; [|discriminate]. intros H; inversion H.
+    cbn. rewrite F, A1. reflexivity.
+Qed.
+Lemma add_ni_mirror_eq v n r : mirror_eq (abs (add_network_instance v n r)) (abs r).
+Proof.
+  intros n' k'. rewrite add_ni_abs. cbn [spec_apply]. destruct (nmem n (abs r)); [reflexivity|].
+  unfold slook. rewrite nget_app. destruct (nget n' (abs r)); [reflexivity|].
+  unfold nget, aget; cbn. destruct (n' =? n); cbn; [apply tlook_tabs0|reflexivity].
+Qed.
+
+(* ---- one step, then histories: any walk order, any variant that has the repair F15 ---- *)
+Lemma rstep_mirrors ordf v r i :
+  fixF15 v = true -> WF r -> all_hooked r ->
+  mirrors r (hev (snd (fst (rstep_ord ordf v r i)))) (fst (fst (rstep_ord ordf v r i)))
+  /\ all_hooked (fst (fst (rstep_ord ordf v r i))).
+Proof.
+  intros F W A. destruct i as [n o hf ho|n o|l|n| |]; cbn [rstep_ord rstep].
+  - pose proof (add_entry_mirrors v (ordf hf ho) r n o A) as H. destruct (add_entry _ _ r n o) as [r1 o1]. exact H.
+  - pose proof (delete_entry_mirrors v r n o A) as H. destruct (delete_entry v r n o) as [r1 o1]. exact H.
+  - pose proof (flush_mirrors v l r [] false W A) as (new & E & M & A1). cbv zeta in *. fold (flush v l r) in *.
+    destruct (flush v l r) as [[r1 h1] e1]. cbn [fst snd app] in *. subst h1. split; [exact M|exact A1].
+  - cbn [fst snd hev out0]. split; [apply mirrors_nil, add_ni_mirror_eq|apply AH_add_ni; assumption].
+  - cbn [fst snd hev out0]. split; [apply mirrors_nil; rewrite set_hook_abs; reflexivity|apply AH_set_hook].
+  - cbn [fst snd hev out0]. split; [apply mirrors_nil; reflexivity|exact A].
+Qed.
+
+Lemma history_mirrors ordf v : fixF15 v = true -> forall h r, WF r -> all_hooked r ->
+  mirrors r (hev_log_ord ordf v r h) (rfinal_ord ordf v r h).
+Proof.
+  intros F. induction h as [|i h IH]; intros r W A; cbn [hev_log_ord rfinal_ord]; [apply mirrors_nil; reflexivity|].
+  pose proof (rstep_mirrors ordf v r i F W A) as [M A1]. pose proof (rstep_WF ordf v r i W) as W1.
+  destruct (rstep_ord ordf v r i) as [[r1 o1] b1]. cbn [fst snd] in *.
+  eapply mirrors_app; [exact M|apply IH; assumption].
+Qed.
+
+Lemma rfinal_ord_app ordf v h1 : forall r h2, rfinal_ord ordf v r (h1 ++ h2) = rfinal_ord ordf v (rfinal_ord ordf v r h1) h2.
+Proof. induction h1 as [|i h1 IH]; intros r h2; cbn [app rfinal_ord]; [reflexivity|apply IH]. Qed.
+Lemma hev_log_ord_app ordf v h1 : forall r h2,
+  hev_log_ord ordf v r (h1 ++ h2) = hev_log_ord ordf v r h1 ++ hev_log_ord ordf v (rfinal_ord ordf v r h1) h2.
+Proof.
+  induction h1 as [|i h1 IH]; intros r h2; cbn [app hev_log_ord rfinal_ord]; [reflexivity|].
+  destruct (rstep_ord ordf v r i) as [[r1 o1] b1]. cbn [fst]. rewrite IH, app_assoc. reflexivity.
+Qed.
+
+(* ==== C16, post-change hook ==== *)
+(* the hook is registered at any point of a history that started with the RIB [r0] (well-formed, e.g.
+   empty): from then on the fold of the notifications over the tables as they were at registration is
+   the installed tables, and every DELETE carries the entry the consumer holds *)
+Theorem mirror_v ordf v r0 h1 h2 :
+  fixF15 v = true -> WF r0 ->
+  let r_reg := rfinal_ord ordf v r0 (h1 ++ [ISetHook]) in
+  mirrors r_reg (hev_log_ord ordf v r_reg h2) (rfinal_ord ordf v r0 (h1 ++ ISetHook :: h2)).
+Proof.
+  intros F W r_reg.
+  assert (E : rfinal_ord ordf v r0 (h1 ++ ISetHook :: h2) = rfinal_ord ordf v r_reg h2).
+  { change (ISetHook :: h2) with ([ISetHook] ++ h2). rewrite app_assoc, rfinal_ord_app. reflexivity. }
+  rewrite E. apply history_mirrors; [exact F| |].
+  - apply rfinal_WF, W.
+  - unfold r_reg. rewrite rfinal_ord_app. cbn [rfinal_ord rstep_ord rstep fst]. apply AH_set_hook.
+Qed.
+
+(* registration while nothing is installed (server.New: options in any order; rib.New + SetPostChangeHook
+   before or after AddNetworkInstance): the fold from empty tables *)
+Definition empty_tabs (r : rib) : Prop := forall n k, slook (abs r) n k = None.
+Lemma empty_rib0 d nf : empty_tabs (rib0 d nf).
+Proof.
+  intros n k. unfold slook, rib0, abs; cbn. unfold nget, aget; cbn. destruct (n =? d); cbn; [apply tlook_tabs0|reflexivity].
+Qed.
+Lemma config_step ordf v r i :
+  is_config i = true -> empty_tabs r ->
+  hev (snd (fst (rstep_ord ordf v r i))) = [] /\ empty_tabs (fst (fst (rstep_ord ordf v r i))).
+Proof.
+  intros C E. destruct i as [n o hf ho|n o|l|n| |]; try discriminate; cbn [rstep_ord rstep fst snd hev out0]; (split; [reflexivity|]).
+  - intros n' k'. rewrite (add_ni_mirror_eq v n r n' k'). apply E.
+  - intros n' k'. rewrite set_hook_abs. apply E.
+  - exact E.
+Qed.
+Lemma config_history ordf v h : forall r, config_only h -> empty_tabs r ->
+  hev_log_ord ordf v r h = [] /\ empty_tabs (rfinal_ord ordf v r h).
+Proof.
+  unfold config_only. induction h as [|i h IH]; intros r C E; cbn [hev_log_ord rfinal_ord]; [split; [reflexivity|exact E]|].
+  cbn [forallb] in C. apply andb_prop in C. destruct C as [C1 C2].
+  destruct (config_step ordf v r i C1 E) as [H1 H2].
+  destruct (rstep_ord ordf v r i) as [[r1 o1] b1]. cbn [fst snd] in *.
+  destruct (IH r1 C2 H2) as [H3 H4]. rewrite H1, H3. split; [reflexivity|exact H4].
+Qed.
+
+Theorem mirror_from_start_v ordf v r0 h1 h2 :
+  fixF15 v = true -> WF r0 -> empty_tabs r0 -> config_only h1 ->
+  mirror_eq (abs (rfinal_ord ordf v r0 (h1 ++ ISetHook :: h2)))
+            (fold_left fold_hook (hev_log_ord ordf v r0 (h1 ++ ISetHook :: h2)) [])
+  /\ evs_ok [] (hev_log_ord ordf v r0 (h1 ++ ISetHook :: h2)).
+Proof.
+  intros F W E C.
+  pose proof (mirror_v ordf v r0 h1 h2 F W) as [M1 M2]. cbv zeta in *.
+  assert (C' : config_only (h1 ++ [ISetHook])).
+  { unfold config_only in *. rewrite forallb_app, C. reflexivity. }
+  destruct (config_history ordf v (h1 ++ [ISetHook]) r0 C' E) as [L0 E0].
+  assert (EL : hev_log_ord ordf v r0 (h1 ++ ISetHook :: h2)
+               = hev_log_ord ordf v (rfinal_ord ordf v r0 (h1 ++ [ISetHook])) h2).
+  { change (ISetHook :: h2) with ([ISetHook] ++ h2). rewrite app_assoc, hev_log_ord_app, L0. reflexivity. }
+  rewrite EL.
+  assert (Q : mirror_eq (abs (rfinal_ord ordf v r0 (h1 ++ [ISetHook]))) []).
+  { intros n k. rewrite E0. reflexivity. }
+  split.
+  - rewrite M1. apply fold_hooks_proper. exact Q.
+  - eapply evs_ok_proper; [exact Q|exact M2].
+Qed.
+
+(* ==== C16, resolved-entry hook ==== *)
+Lemma rev_ok_mono a b ev : (forall x, In x a -> In x b) -> rev_ok a ev -> rev_ok b ev.
+Proof.
+  intros H. destruct ev as [[|] n t k snap]; cbn [rev_ok]; [|auto].
+  intros (o & kv & pl & H1 & H2 & H3). exists o, kv, pl. auto.
+Qed.
+Lemma try_install_rev v r n o r' h rv :
+  try_install v r n o = Installed r' h rv -> forall ev, In ev rv -> rev_ok [(n, o)] ev.
+Proof.
+  intros H. pose proof (try_install_abs _ _ _ _ _ _ _ H) as [HA _]. revert H.
+  unfold try_install. destruct (nget n (nis r)) as [s|] eqn:En; [|discriminate].
+  destruct (op_entry o) as [t k kv p|id p|i p|] eqn:Eo; [| | |discriminate].
+  - unfold try_add_top. destruct p as [pl|]; [|discriminate].
+    destruct (negb (key_ok t k kv) || t_bad pl); [discriminate|].
+    destruct (_ && negb (nmem k (get_top t s))); [discriminate|].
+    destruct (t_nhg pl =? 0); [discriminate|].
+    destruct (target n pl) as [tn tg].
+    destruct (negb (has_ni r tn)); [discriminate|].
+    destruct (negb (has_grp r tn tg)); [discriminate|].
+    intros H; inversion H as [[Hr Hh Hrv]]; clear H.
+    destruct (res_hooked r); intros ev Hin; [|destruct Hin]. destruct Hin as [<-|[]].
+    cbn [rev_ok]. exists o, kv, pl. split; [left; reflexivity|]. split; [exact Eo|].
+    rewrite Hr. change (abs_nis (nis r')) with (abs r').
+    rewrite (slook_sp_eq _ _ n (KTop t k) HA), slook_in_ni, N.eqb_refl, nget_abs, En. cbn [option_map].
+    change (put_entry (ETop t k kv (Some pl)) (tabs_of s)) with (put_sentry (STop t k pl) (tabs_of s)).
+    rewrite tlook_put. cbn [sentry_key]. rewrite skey_eqb_refl. reflexivity.
+  - unfold try_add_grp. destruct p as [pl|]; [|discriminate].
+    destruct (g_bad pl); [discriminate|].
+    destruct (_ && negb (nmem id (tabg s))); [discriminate|].
+    destruct (id =? 0); [discriminate|].
+    destruct (g_nhs pl) as [|iw l] eqn:Enhs; [discriminate|].
+    destruct (existsb _ (iw :: l)); [discriminate|].
+    destruct (forallb _ (iw :: l)); cbn [negb]; [|discriminate].
+    intros H; inversion H; subst. intros ev [].
+  - unfold try_add_nh. destruct p as [pl|]; [|discriminate].
+    destruct (h_bad pl); [discriminate|].
+    destruct (_ && negb (nmem i (tabh s))); [discriminate|].
+    destruct (i =? 0); [discriminate|].
+    intros H; inversion H; subst. intros ev [].
+Qed.
+
+Definition revs_ok (o : out) : Prop := forall ev, In ev (rev o) -> rev_ok (acked o) ev.
+Lemma add_entry_revs_ok v ord r n o : revs_ok (snd (add_entry v ord r n o)).
+Proof.
+  apply (add_entry_P v ord (fun _ acc => revs_ok acc)).
+  - intros r1 acc m H; exact H.
+  - intros r1 acc i H; exact H.
+  - intros r1 acc H; exact H.
+  - intros r1 acc n1 o1 r2 h rv H Hi ev. cbn [rev acked add_rev add_hev add_ok]. rewrite in_app_iff. intros [Hin|Hin].
+    + eapply rev_ok_mono; [|apply H; exact Hin]. intros x Hx. apply in_or_app. left. exact Hx.
+    + eapply rev_ok_mono; [|eapply try_install_rev; eauto]. intros x Hx. apply in_or_app. right. exact Hx.
+  - intros r1 H; exact H.
+  - intros ev [].
+Qed.
+Lemma delete_entry_revs_ok v r n o : revs_ok (snd (delete_entry v r n o)).
+Proof.
+  unfold delete_entry. destruct (nget n (nis r)) as [s|] eqn:En; cbn [snd]; [|intros ev []].
+  destruct (op_entry o) as [t k kv p|id p|i p|]; cbn [snd].
+  - destruct (fixF6 v && negb (key_ok t k kv)); cbn [snd]; [intros ev []|].
+    cbv zeta. remember (match t with TL => if fixF6 v then k else k mod W32 | _ => k end) as k1 eqn:Ek. clear Ek.
+    cbn [snd]. intros ev. cbn [rev add_rev add_hev add_ok out0 app].
+    pose proof (abs_upd_top n t (ndel k1) r) as H1. cbv beta in H1.
+    destruct (nget k1 (get_top t s)) as [d|]; [|intros []].
+    destruct (res_hooked r); [|intros []]. intros [<-|[]]. cbn [rev_ok].
+    destruct (target n d) as [tn tg].
+    match goal with |- slook (abs_nis (nis ?r2)) _ _ = _ => change (abs_nis (nis r2)) with (abs r2) end.
+    rewrite (slook_sp_eq _ _ n (KTop t k1) (abs_upd_rcg _ _ _)).
+    rewrite (slook_sp_eq _ _ n (KTop t k1) H1), slook_in_ni, N.eqb_refl, nget_abs, En. cbn [option_map].
+    change (sp_set_top t (ndel k1 (sp_top t (tabs_of s))) (tabs_of s)) with (del_skey (KTop t k1) (tabs_of s)).
+    rewrite tlook_del, skey_eqb_refl. reflexivity.
+  - destruct (id =? 0); cbn [snd]; [intros ev []|].
+    destruct (nget id (tabg s)); [destruct (0 <? cnt (rcg s) id)|]; intros ev [].
+  - destruct (i =? 0); cbn [snd]; [intros ev []|].
+    destruct (nget i (tabh s)); [destruct (0 <? cnt (rch s) i)|]; intros ev [].
+  - intros ev [].
+Qed.
+
+(* every resolved-entry notification of every step from every state, any variant, any walk order *)
+Theorem resolved_snapshot ordf v r i : revs_ok (snd (fst (rstep_ord ordf v r i))).
+Proof.
+  destruct i as [n o hf ho|n o|l|n| |]; cbn [rstep_ord rstep].
+  - pose proof (add_entry_revs_ok v (ordf hf ho) r n o) as H. destruct (add_entry _ _ r n o) as [r1 o1]. exact H.
+  - pose proof (delete_entry_revs_ok v r n o) as H. destruct (delete_entry v r n o) as [r1 o1]. exact H.
+  - destruct (flush v l r) as [[r1 h1] e1]. intros ev [].
+  - intros ev [].
+  - intros ev [].
+  - intros ev [].
+Qed.
+(* ... hence of every history *)
+Definition rev_good (ev : revent) : Prop := exists acks, rev_ok acks ev.
+Theorem resolved_snapshot_history ordf v : forall h r ev, In ev (rev_log_ord ordf v r h) -> rev_good ev.
+Proof.
+  induction h as [|i h IH]; intros r ev; cbn [rev_log_ord]; [intros []|].
+  pose proof (resolved_snapshot ordf v r i) as H.
+  destruct (rstep_ord ordf v r i) as [[r1 o1] b1]. cbn [fst snd] in H.
+  rewrite in_app_iff. intros [Hin|Hin]; [exists (acked o1); apply H; exact Hin|eapply IH; eauto].
+Qed.
+
+(* ==== the statements of Properties/C16.v ==== *)
+Theorem mirror_rib0 ordf d nf h1 h2 :
+  let r0 := rib0 d nf in
+  let r_reg := rfinal_ord ordf v_fixed r0 (h1 ++ [ISetHook]) in
+  mirror_eq (abs (rfinal_ord ordf v_fixed r0 (h1 ++ ISetHook :: h2)))
+            (fold_left fold_hook (hev_log_ord ordf v_fixed r_reg h2) (abs r_reg)).
+Proof. exact (proj1 (mirror_v ordf v_fixed (rib0 d nf) h1 h2 eq_refl (WF_rib0 d nf))). Qed.
+Theorem delete_carries_rib0 ordf d nf h1 h2 :
+  let r_reg := rfinal_ord ordf v_fixed (rib0 d nf) (h1 ++ [ISetHook]) in
+  evs_ok (abs r_reg) (hev_log_ord ordf v_fixed r_reg h2).
+Proof. exact (proj2 (mirror_v ordf v_fixed (rib0 d nf) h1 h2 eq_refl (WF_rib0 d nf))). Qed.
+Theorem mirror_any_variant ordf v r0 h1 h2 :
+  fixF15 v = true -> WF r0 ->
+  let r_reg := rfinal_ord ordf v r0 (h1 ++ [ISetHook]) in
+  mirror_eq (abs (rfinal_ord ordf v r0 (h1 ++ ISetHook :: h2)))
+            (fold_left fold_hook (hev_log_ord ordf v r_reg h2) (abs r_reg)).
+Proof. intros F W. exact (proj1 (mirror_v ordf v r0 h1 h2 F W)). Qed.
+Theorem mirror_from_start_rib0 ordf d nf h1 h2 :
+  config_only h1 ->
+  mirror_eq (abs (rfinal_ord ordf v_fixed (rib0 d nf) (h1 ++ ISetHook :: h2)))
+            (fold_left fold_hook (hev_log_ord ordf v_fixed (rib0 d nf) (h1 ++ ISetHook :: h2)) []).
+Proof. intros C. exact (proj1 (mirror_from_start_v ordf v_fixed (rib0 d nf) h1 h2 eq_refl (WF_rib0 d nf) (empty_rib0 d nf) C)). Qed.
+Theorem delete_carries_from_start_rib0 ordf d nf h1 h2 :
+  config_only h1 -> evs_ok [] (hev_log_ord ordf v_fixed (rib0 d nf) (h1 ++ ISetHook :: h2)).
+Proof. intros C. exact (proj2 (mirror_from_start_v ordf v_fixed (rib0 d nf) h1 h2 eq_refl (WF_rib0 d nf) (empty_rib0 d nf) C)). Qed.
+(* the executable runner of Run.v (walk order [canon]) *)
+Theorem mirror_from_start_run d nf h1 h2 :
+  config_only h1 ->
+  mirror_eq (abs (snd (rtrace v_fixed (rib0 d nf) (h1 ++ ISetHook :: h2))))
+            (fold_left fold_hook (hev_log_ord canon v_fixed (rib0 d nf) (h1 ++ ISetHook :: h2)) []).
+Proof. intros C. rewrite <- rfinal_rtrace. exact (mirror_from_start_rib0 canon d nf h1 h2 C). Qed.
+
+(* the pinned tree: a network instance created after registration is never reported *)
+Definition tree_h2 : list rinput := [IAddNI 2; IAdd 2 (mk_op 1 2 ADD None (ENh 1 (Some (mk_nh [])))) [] []].
+Theorem mirror_tree_refuted :
+  exists d nf h1 h2,
+    config_only h1
+    /\ hev_log_ord canon v_tree (rib0 d nf) (h1 ++ ISetHook :: h2) = []
+    /\ ~ mirror_eq (abs (rfinal_ord canon v_tree (rib0 d nf) (h1 ++ ISetHook :: h2)))
+                   (fold_left fold_hook (hev_log_ord canon v_tree (rib0 d nf) (h1 ++ ISetHook :: h2)) []).
+Proof.
+  exists 1, false, [], tree_h2. split; [reflexivity|]. split; [vm_compute; reflexivity|].
+  intros H. specialize (H 2 (KNh 1)). vm_compute in H. discriminate.
+Qed.
